@@ -222,8 +222,13 @@ def generate(cls, rng):
                           "extra:unknown_property",
                           "extra:unclosed_component", "no_components",
                           "bad_offset"])
+        # alone, or next to a well-formed neighbour in the same file (the
+        # malformed block first or second)
+        other, other_form = gen_zone_spec(rng)
         return dict(spec=spec, form=form, how=how,
-                    daylight_first=rng.random() < 0.5)
+                    daylight_first=rng.random() < 0.5,
+                    pos=rng.choice(["alone", "alone", "first", "second"]),
+                    other=other, other_form=other_form)
     from dsim import depth as DP
     spec, form = gen_zone_spec(rng)
     small = cls == "threads"
@@ -643,16 +648,22 @@ def execute_bad(scenario, ctx):
     if how == "bad_offset":
         lines = [ln.replace("TZOFFSETTO:", "TZOFFSETTO:1") if
                  ln.startswith("TZOFFSETTO:") else ln for ln in lines]
+    pos = scenario.get("pos", "alone")
+    if pos != "alone" and scenario.get("other"):
+        good = vtimezone(scenario["other"], "Zone/Two",
+                         scenario["other_form"], False, 5)
+        lines = (lines + good) if pos == "first" else (good + lines)
+        ctx.probe("bad.next_to_good_zone")
     text = "\n".join(lines) + "\n"
     ctx.checks += 1
     ctx.nontrivial = True
     K.set_budget(3000000)
     try:
         ical = tz.tzical(io.StringIO(text))
-        z = ical.get()
+        z = ical.get("Zone/One") if pos != "alone" else ical.get()
     except ValueError as e:
         ctx.probe("malformed_rejected")
-        ctx.event("bad", how, "ValueError")
+        ctx.event("bad", how, pos, "ValueError")
     except (Deadlock, BudgetExceeded) as e:
         ctx.violation("liveness.budget", dict(how=how, msg=str(e)))
     except Exception as e:
